@@ -303,3 +303,28 @@ Definition feed_all (now : N) (st : pst) (chunks : list (list N)) : list pmsg * 
 (* no transfer of s is old enough for the housekeeping pass to act at time now *)
 Definition fresh (now : N) (s : pstate) : Prop :=
   Forall (fun kv => (x_create (snd kv) + 60000 <? now) = false /\ (x_update (snd kv) + 5000 <? now) = false) s.
+
+(* ---------------- reads spread over time (C05_segmentation_timed) ---------------- *)
+(* a history of reads, each processed at its own time *)
+Fixpoint feed_timed (st : pst) (reads : list (N * list N)) : list (pst * list pmsg * option N) :=
+  match reads with
+  | [] => []
+  | (now, d) :: t => let r := parse now st d in r :: feed_timed (fst (fst r)) t
+  end.
+(* what the completePack loop delivers in each of those reads: everything parse returns except the
+   0x8003 messages its housekeeping pass generates (parse appends those after it) *)
+Fixpoint owns_timed (st : pst) (reads : list (N * list N)) : list (list pmsg) :=
+  match reads with
+  | [] => []
+  | (now, d) :: t =>
+    snd (cp_loop now (ps_x st) (u_msgs (unpack (ps_hist st) d))) :: owns_timed (fst (fst (parse now st d))) t
+  end.
+(* the expiry pass never drops a transfer during the history: at the end of every read (after its
+   messages were processed) no pending transfer was created more than 60 s earlier *)
+Fixpoint no_expiry (st : pst) (reads : list (N * list N)) : Prop :=
+  match reads with
+  | [] => True
+  | (now, d) :: t =>
+    let s1 := fst (cp_loop now (ps_x st) (u_msgs (unpack (ps_hist st) d))) in
+    delete_timeout now s1 = s1 /\ no_expiry (fst (fst (parse now st d))) t
+  end.
